@@ -278,6 +278,14 @@ fn main() {
     // near-duplicate pairs below the duplicate tolerance: which one survives must not depend on the listing order
     let nd2: Vec<[f64; 2]> = vec![[0.0, 0.0], [4.0, 0.0], [0.0, 4.0], [4.0, 4.0], [1.0, 2.0], [1.0 + 3e-11, 2.0], [3.0, 1.0]];
     run_family::<2>(&rep, &cn, "near-duplicate pair", &nd2, 6..=6 + x, if thorough { 1 } else { 2 }, true, &mut bounds);
+    // the same with an outlier that makes the epsilon-dedup hash grid unusable (coordinate / tolerance beyond 2^53:
+    // quantised fallback; beyond 2^63: quadratic fallback) - the fallbacks keep the first vertex of a group they see
+    let mut nd2q = nd2.clone();
+    nd2q.push([1.0e6, 3.0]);
+    run_family::<2>(&rep, &cn, "near-duplicate pair + outlier 1e6", &nd2q, 7..=7 + x, 1, thorough, &mut bounds);
+    let mut nd2n = nd2.clone();
+    nd2n.push([4.0e9, -1.0e9]);
+    run_family::<2>(&rep, &cn, "near-duplicate pair + outlier 4e9", &nd2n, 7..=7 + x, 1, thorough, &mut bounds);
     schedules(&rep, &cn);
     // cross-process: a child process of this very binary must report the same digests
     let here = child_digests();
